@@ -12,25 +12,21 @@ def ratJ (q : Rat) : Json := ints #[q.num, (q.den : Int)]
 
 def handle (op : String) (j : Json) : Option (R Json) :=
   match op with
-  | "rs.meta" => some do
-      let sh ← getInts j "shape"
-      let s ← ratOf j "scale"
-      let px ← ratOf j "px"
-      let S0 := outShape Rat.ceil (fun k => (k : Rat)) sh[0]! s
-      let S1 := outShape Rat.ceil (fun k => (k : Rat)) sh[1]! s
-      let c := fun (S n : Int) (t : Int) => coord (fun k => (k : Rat)) 2 S n s t
-      pure (okJ [("shape", ints #[S0, S1]), ("pixelscale", ratJ (pixelscale px s)),
-                 ("y0", ratJ (c S0 sh[0]! 0)), ("x0", ratJ (c S1 sh[1]! 0)),
-                 ("ylast", ratJ (c S0 sh[0]! (S0 - 1))), ("xlast", ratJ (c S1 sh[1]! (S1 - 1)))])
   | "rs.coords" => some do
       -- the whole interpolation grid of util.rescale, exact
       let sh ← getInts j "shape"
       let s ← ratOf j "scale"
-      let S0 := outShape Rat.ceil (fun k => (k : Rat)) sh[0]! s
-      let S1 := outShape Rat.ceil (fun k => (k : Rat)) sh[1]! s
+      -- `prod`: the float64 products fl(n·s) as the code forms them (exact rationals of those doubles); the sample count is the
+      -- ceiling of THAT number — it can differ by one from ⌈n·s⌉ when n·s is within an ulp of an integer (float seam, see ASSUMPTIONS)
+      let (S0, S1) ← match optVal j "prod" with
+        | some (Json.arr a) => do
+            let p0 ← a[0]!.getArr?; let p1 ← a[1]!.getArr?
+            pure (Rat.ceil (mkRat (← p0[0]!.getInt?) (← p0[1]!.getNat?)), Rat.ceil (mkRat (← p1[0]!.getInt?) (← p1[1]!.getNat?)))
+        | _ => pure (outShape Rat.ceil (fun k => (k : Rat)) sh[0]! s, outShape Rat.ceil (fun k => (k : Rat)) sh[1]! s)
       let ys := (List.range S0.toNat).map fun (t : Nat) => ratJ (coord (fun k => (k : Rat)) 2 S0 sh[0]! s t)
       let xs := (List.range S1.toNat).map fun (t : Nat) => ratJ (coord (fun k => (k : Rat)) 2 S1 sh[1]! s t)
-      pure (okJ [("shape", ints #[S0, S1]), ("y", Json.arr ys.toArray), ("x", Json.arr xs.toArray)])
+      pure (okJ [("shape", ints #[S0, S1]), ("y", Json.arr ys.toArray), ("x", Json.arr xs.toArray),
+                 ("exact_shape", ints #[outShape Rat.ceil (fun k => (k : Rat)) sh[0]! s, outShape Rat.ceil (fun k => (k : Rat)) sh[1]! s])])
   | "rs.plane" => some do
       -- Plane.rescale's own bookkeeping: per-axis pixel scale (or none), amplitude factor, which arrays are interpolated
       let s ← ratOf j "scale"
@@ -56,9 +52,6 @@ def handle (op : String) (j : Json) : Option (R Json) :=
       | .valueError => pure (errJ "ValueError")
       | .notImplemented => pure (errJ "NotImplementedError")
       | .scale sc => pure (okJ [("scale", ratJ sc)])
-  | "rs.resample" => some do
-      let px ← ratOf j "px"; let new ← ratOf j "new"
-      pure (okJ [("scale", ratJ (resampleScale px new)), ("pixelscale", ratJ (pixelscale px (resampleScale px new)))])
   | _ => none
 
 end Ops.C17
